@@ -94,6 +94,8 @@ var extContracts = []string{
 	"0x00000000000000000000000000000000000000c1",
 	"0x00000000000000000000000000000000000000C2",
 	"00000000000000000000000000000000000000c3",
+	"0X00000000000000000000000000000000000000C4", // IsHexAddress accepts the upper-case prefix as well
+	"0XaBcDeF0000000000000000000000000000000005",
 }
 var ownerPool = []string{
 	"0x00000000000000000000000000000000000000a1",
